@@ -1,7 +1,7 @@
 (* wire glue for C06 (UUID resolution, engine E4) *)
 (* WIRE engine=106 fn=dispatch_c06 *)
 From Coq Require Import List NArith Bool.
-From RPFT Require Import Base.Sexp Base.PyStr Base.Result Gen.Tables Uuid.UuidDict Uuid.Container.
+From RPFT Require Import Base.Sexp Base.PyStr Base.Result Gen.Tables Uuid.UuidDict Uuid.Container Uuid.Sheet.
 Import ListNotations.
 Local Open Scope N_scope.
 
@@ -113,6 +113,49 @@ Definition enc_snap (s : list (kind * gref) * list bool) : sexp :=
 
 Definition enc_dict (d : dict) : sexp := enc_list (fun kv => L [enc_str (fst kv); enc_pyuuid (snd kv)]) d.
 
+(* sheet level (Uuid/Sheet.v).  item: (0 type name obj_id (case ...)) | (1 (item ...)) *)
+Fixpoint dec_item (x : sexp) : option item :=
+  match x with
+  | L [A 0; ty; n; u; cs] =>
+    match dec_str ty, dec_str n, dec_pyuuid u, dec_list dec_str cs with
+    | Some t, Some n', Some u', Some c => Some (IRow t n' u' c)
+    | _, _, _, _ => None
+    end
+  | L [A 1; L its] =>
+    let go := fix go (l : list sexp) : option (list item) :=
+      match l with
+      | [] => Some []
+      | y :: r => match dec_item y, go r with Some a, Some b => Some (a :: b) | _, _ => None end
+      end in
+    match go its with Some l => Some (IBlock l) | None => None end
+  | _ => None
+  end.
+Definition dec_fsheet (x : sexp) : option fsheet :=
+  match x with
+  | L [n; its] =>
+    match dec_str n, dec_list dec_item its with
+    | Some n', Some l => Some {| fs_name := n'; fs_items := l |}
+    | _, _ => None
+    end
+  | _ => None
+  end.
+Definition dec_workbook (x : sexp) : option workbook :=
+  match x with
+  | L [fs; cs; ts] =>
+    match dec_list dec_fsheet fs, dec_list dec_campaign cs, dec_list dec_trigger ts with
+    | Some f, Some c, Some t => Some {| wb_flows := f; wb_campaigns := c; wb_triggers := t |}
+    | _, _, _ => None
+    end
+  | _ => None
+  end.
+(* sop: codes 0..5 as dec_op; (6 fsheet) = SParse; (7 workbook) = SParseAll *)
+Definition dec_sop (x : sexp) : option sop :=
+  match x with
+  | L [A 6; f] => match dec_fsheet f with Some f' => Some (SParse f') | None => None end
+  | L [A 7; w] => match dec_workbook w with Some w' => Some (SParseAll w') | None => None end
+  | _ => match dec_op x with Some o => Some (SOp o) | None => None end
+  end.
+
 Definition dispatch_c06 (fn : N) (args : list sexp) : sexp :=
   match fn, args with
   (* 1: history.  (container ops) -> ((snapshot ...) stop) with stop = () | (index error) *)
@@ -140,6 +183,15 @@ Definition dispatch_c06 (fn : N) (args : list sexp) : sexp :=
                  L [enc_dict (fd ud); enc_dict (gd ud); enc_dict (fd ud'); enc_dict (gd ud')]
       | Err e => s_err (match e with EConflict => 1 | EUnknownFlow => 2 | EKeyError => 3 end)
       end
+    | None => s_badinput
+    end
+  (* 3: sheet-level history from an empty container.  (sop ...) -> ((snapshot ...) stop) *)
+  | 3, [ops] =>
+    match dec_list dec_sop ops with
+    | Some ops' =>
+      let '(snaps, stop) := sheet_trace ops' (init empty_container) 0 in
+      L [enc_list enc_snap snaps;
+         match stop with None => L [] | Some (i, e) => L [enc_nat i; enc_err e] end]
     | None => s_badinput
     end
   | _, _ => s_badinput
